@@ -63,6 +63,9 @@ func c14MakeBuilder(s c14Spec) *parser.Builder {
 	if s.Mode.Smart {
 		pb.WithSmartSemicolon(true)
 	}
+	// one more token type whose name is this builder's own: builders with the same
+	// number of operators give it the same id under different names
+	pb.LexerBuilder.RegisterTokenType(fmt.Sprintf("own-%v-%v-%d", s.Mode.Tolerant, s.Mode.Smart, s.Icpt))
 	for i := 0; i < s.Icpt; i++ {
 		pb.UseStatementInterceptor(func(p *parser.Parser, next func() ast.Statement) ast.Statement { return next() })
 		pb.UseExpressionInterceptor(func(p *parser.Parser, next func() ast.Expression) ast.Expression { return next() })
@@ -82,6 +85,11 @@ func c14Tokens(pb *parser.Builder, input string) string {
 		if t.Type == token.EOF {
 			break
 		}
+	}
+	// how this builder's dynamic token types print (part of every error message
+	// and token dump that mentions one)
+	for id := token.Type(token.DYNAMIC_TOKENS_START); id < token.Type(token.DYNAMIC_TOKENS_START)+7; id++ {
+		fmt.Fprintf(&b, "|%d=%s", int(id), id.String())
 	}
 	return b.String()
 }
